@@ -20,12 +20,13 @@ from ..core import canon
 
 PROP = "C12"
 NAME = "c12_crash"
-RUNS = {"quick": 96, "thorough": 3000}
+RUNS = {"quick": 96, "thorough": 1500}
 TIMEOUT = 600
 CHUNK = 2
 DETERMINISM_RERUNS = 4
 RULE = (
-    "one configuration per run (MDO DisciplinaryOpt / MDF over 3 coupled harness disciplines with a sequential MDA, or DOE scenario; "
+    "one configuration per run (MDO DisciplinaryOpt / MDF over 3 coupled harness disciplines with a sequential MDA / IDF over two disciplines "
+    "computing objective and constraint separately, or DOE scenario; "
     "algorithm; backup at each call / each iteration / both; normalised or not; budget); ALL crash points k=1..K of the configuration "
     "are enumerated by the snapshot sweep and checked against the store-event prefix; restarts from tape-chosen k (all k in the thorough "
     "tier), repeated crashes up to depth 3, and real os._exit deaths at tape-chosen k; a case is one distinct (configuration, crash "
@@ -136,8 +137,32 @@ def _make_disciplines(cfg, counter):
             df[0] = 2 * (x[0] - 1) + 0.5
             return {"f": {"x": atleast_2d(df)}, "g": {"x": atleast_2d([1.0] * nx)}}
 
+    class DF(Base):
+        def __init__(self):
+            super().__init__("DF", ["x"], ["f"])
+
+        def compute(self, d):
+            return {"f": DSingle.compute(self, d)["f"]}
+
+        def partials(self, d):
+            return {"f": DSingle.partials(self, d)["f"]}
+
+    class DG(Base):
+        def __init__(self):
+            super().__init__("DG", ["x"], ["g"])
+
+        def compute(self, d):
+            return {"g": DSingle.compute(self, d)["g"]}
+
+        def partials(self, d):
+            return {"g": DSingle.partials(self, d)["g"]}
+
     if cfg["formulation"] == "MDF":
         return [D1(), D2(), D3()]
+    if cfg["formulation"] == "IDF":
+        # objective and constraint come from separate disciplines, each executed only when its own
+        # function is evaluated: a crash can fall between the two at one point
+        return [DF(), DG()]
     return [DSingle()]
 
 
@@ -288,7 +313,7 @@ def expected_image(cfg, run, k):
 
 def draw_config(t):
     kind = "MDO" if t.flag(0.7, "kind_mdo") else "DOE"
-    formulation = "MDF" if t.flag(0.5, "mdf") else "DisciplinaryOpt"
+    formulation = ["DisciplinaryOpt", "MDF", "IDF"][t.weighted([3, 3, 2], "formulation")]
     cfg = {
         "kind": kind, "formulation": formulation, "mda": t.pick(["MDAGaussSeidel", "MDAJacobi"], "mda"),
         "nx": t.randint(1, 2, "nx"), "variant": t.choice(3, "variant"),
